@@ -275,3 +275,18 @@ PROPS["C20"] = dict(
                                  "the re-broadcast runs in a goroutine the wallet spawns; the harness waits on the backend call log (20 s bound that only matters when offers are missing)"],
     units=[dict(name="broadcast", run="^TestC20Broadcast$", quick=600, thorough=2500, shards_quick=2, shards_thorough=16, timeout=1500)],
 )
+
+PROPS["C09"] = dict(
+    pkg="c09", level="exploration",
+    rule=("a funded wallet whose database is wrapped by the commit-handler-gating proxy; rapid draws 2-6 workers with scripts of 1-4 calls (6 thorough) from NewAddress, NewChangeAddress, "
+          "CurrentAddress, CreateSimpleTx (signed or dry run, needs change), FundPsbt on 1-2 (scope, account) pairs so that calls collide on a branch, and a gate plan (80% of cases: every "
+          "k-th commit's OnCommit handlers are held until another worker completes a call or 3-15 ms elapse, i.e. exactly in the window after bbolt released the writer lock and before the "
+          "in-memory index advances). Oracle (outcome only): addresses obtained by successful committed calls are pairwise distinct, lie on the requested scope/account/branch, their indices "
+          "are distinct and inside [pre, post) of the branch, indices of the range nobody received are at most the number of calls that may draw one silently (CurrentAddress, change-less "
+          "transactions), and a freshly opened manager on the same database reports the same next indices as memory. A second unit repeats ungated schedules under the race detector. "
+          "Non-trivial = >= 2 workers issued on the same branch in a gated case."),
+    assumptions=_WALLET_ASSUME + ["schedules are sampled; the hazardous placement (handler vs. another caller's derivation) is constructed by the gate, everything else is left to the Go scheduler",
+                                 "real-time bounds only delay a correct tree; they cannot create a duplicate", "ImportAccountDryRun (sixth holder of the address mutex) is not part of the call mix"],
+    units=[dict(name="gated", run="^TestC09ConcurrentAddresses$", quick=250, thorough=1200, shards_quick=2, shards_thorough=16, timeout=1500),
+           dict(name="race", run="^TestC09ConcurrentAddresses$", race=True, quick=60, thorough=300, shards_quick=1, shards_thorough=4, timeout=1500, env={"GOMAXPROCS": "8"})],
+)
